@@ -20,6 +20,7 @@ type GenOpts struct {
 	Lifetimes  []godi.Lifetime
 	OnlyK      bool // only the K core types
 	Removes    bool // append Remove / RemoveKeyed (+ re-Add) steps at the tail
+	Rebuild    bool // build the collection once in the middle of the registration steps
 }
 
 var allLifetimes = []godi.Lifetime{godi.Singleton, godi.Scoped, godi.Transient}
@@ -292,6 +293,9 @@ func genOnce(rng *rand.Rand, o GenOpts) *Spec {
 	if o.Removes && rng.Intn(100) < 70 {
 		appendRemoves(rng, s, used, lifes)
 	}
+	if o.Rebuild && len(s.Regs) >= 2 {
+		s.RebuildAfter = 1 + rng.Intn(len(s.Regs)-1)
+	}
 	return s
 }
 
@@ -511,6 +515,36 @@ func ProbeAll(r *Run, scope int) {
 		for _, g := range ProbeGroups {
 			r.Do(Op{Kind: OpGetGroup, Scope: scope, Type: t, Group: g})
 		}
+	}
+}
+
+// ProbeRegisteredReverse is ProbeRegistered in the opposite order (groups first, identities in
+// descending order), so that what one order finds already cached the other has to construct.
+func ProbeRegisteredReverse(r *Run, scope int) {
+	m := r.Model
+	var gks []GroupKey
+	for gk := range m.Groups {
+		gks = append(gks, gk)
+	}
+	for i := 1; i < len(gks); i++ {
+		for j := i; j > 0 && (gks[j].Type+"\x00"+gks[j].Group) > (gks[j-1].Type+"\x00"+gks[j-1].Group); j-- {
+			gks[j], gks[j-1] = gks[j-1], gks[j]
+		}
+	}
+	for _, gk := range gks {
+		r.Do(Op{Kind: OpGetGroup, Scope: scope, Type: gk.Type, Group: gk.Group})
+	}
+	var iks []IdentKey
+	for ik := range m.Services {
+		iks = append(iks, ik)
+	}
+	for i := 1; i < len(iks); i++ {
+		for j := i; j > 0 && (iks[j].Type+"\x00"+iks[j].Key) > (iks[j-1].Type+"\x00"+iks[j-1].Key); j-- {
+			iks[j], iks[j-1] = iks[j-1], iks[j]
+		}
+	}
+	for _, ik := range iks {
+		r.Do(Op{Kind: OpGet, Scope: scope, Type: ik.Type, Key: ik.Key})
 	}
 }
 
